@@ -1,9 +1,10 @@
 #!/bin/bash
-# run_all_seeded.sh [--harvest] — applies every seeded change in turn and runs its own property's check;
+# run_all_seeded.sh [--harvest] [glob] — applies every seeded change in turn and runs its own property's check;
 # every line must say VIOLATION (regression of the checks' detection power).  With --harvest the minimised
 # failing case of each detection is added to the regression corpus (tools/harvest.py).
 cd /verif
-for d in seeded/*/; do
+PAT="${2:-*}"
+for d in seeded/$PAT/; do
   id=$(basename $d); prop=${id%-*}
   printf "%s: " $id
   rm -f build/replay/$prop-*-prop.txt build/replay/$prop-*-panic.txt
